@@ -50,6 +50,8 @@ type Env struct {
 	split     bool         // directly inside an outermost assumed universal (Skolem form stated separately)
 	univ      []univBinder // enclosing assumed universal binders (for Skolem functions)
 	noSkolem  bool         // some enclosing quantifier is not an assumed universal
+	noLocals  bool         // inside before()/after() of a site no path to here has executed: local names denote unconstrained values
+	fieldHint string       // the identifier being resolved is the base of a selection of this field (tells same-named locals apart)
 }
 
 // univBinder is a universally quantified variable of an assumed formula.
@@ -224,7 +226,7 @@ func (vc *FuncVC) lookupIdent(env *Env, name string) *CVal {
 				return &CVal{T: Select(env.st.get(vc.cellComp(elem, "")), ref, vc.sortOf(elem)), Typ: elem}
 			}
 		}
-		if env.loop == nil {
+		if env.loop == nil && !env.noLocals {
 			// outside loops allow DebugRef names that dominate the current block
 			blk := vc.curBlock
 			if env.block != nil {
@@ -263,18 +265,45 @@ func (vc *FuncVC) lookupIdent(env *Env, name string) *CVal {
 		// a local variable of the function that does not exist (yet) at this point: in a
 		// formula to be proved it is left unconstrained, which can only make the proof harder
 		d := vc.debugRefs[name][0]
-		t := d.X.Type()
-		if d.IsAddr {
-			t = t.Underlying().(*types.Pointer).Elem()
+		typeOf := func(d *ssa.DebugRef) types.Type {
+			t := d.X.Type()
+			if d.IsAddr {
+				t = t.Underlying().(*types.Pointer).Elem()
+			}
+			return t
 		}
+		key := name
+		if env.fieldHint != "" {
+			// several locals of this name (one per case of a switch, say): the one whose type has the selected field
+			for _, c := range vc.debugRefs[name] {
+				t := typeOf(c)
+				if p, ok := t.Underlying().(*types.Pointer); ok {
+					t = p.Elem()
+				}
+				if st, ok := t.Underlying().(*types.Struct); ok {
+					found := false
+					for i := 0; i < st.NumFields(); i++ {
+						if st.Field(i).Name() == env.fieldHint {
+							found = true
+						}
+					}
+					if found {
+						d = c
+						key = name + "!" + typeOf(c).String()
+						break
+					}
+				}
+			}
+		}
+		t := typeOf(d)
 		if !isStruct(t) {
 			if vc.undefVars == nil {
 				vc.undefVars = map[string]Term{}
 			}
-			c, ok := vc.undefVars[name]
+			c, ok := vc.undefVars[key]
 			if !ok {
-				c = vc.declareGlobal("undef!"+name, vc.sortOf(t))
-				vc.undefVars[name] = c
+				c = vc.declareGlobal("undef!"+key, vc.sortOf(t))
+				vc.undefVars[key] = c
 			}
 			return &CVal{T: c, Typ: t}
 		}
@@ -395,6 +424,9 @@ func (vc *FuncVC) debugValue(name string, b *ssa.BasicBlock, st *State) *CVal {
 		ambiguous := false
 		for _, o := range order {
 			c := byObj[o]
+			if os.Getenv("GOVC_DEBUG") != "" && c.single != nil {
+				fmt.Fprintf(os.Stderr, "debugValue %s at block %d: object@%v single %s uniform %v\n", name, b.Index, vc.Fn.Prog.Fset.Position(o.Pos()).Line, c.single.Name(), c.uniform)
+			}
 			if c.single == nil || !c.uniform {
 				continue
 			}
@@ -411,6 +443,9 @@ func (vc *FuncVC) debugValue(name string, b *ssa.BasicBlock, st *State) *CVal {
 					continue
 				}
 			}
+			if os.Getenv("GOVC_DEBUG") != "" {
+				fmt.Fprintf(os.Stderr, "debugValue %s at block %d: candidate %s (%s) obj@%v\n", name, b.Index, c.single.Name(), c.single.Type(), o.Pos())
+			}
 			if bestSingle != nil && bestSingle != c.single {
 				ambiguous = true
 			}
@@ -424,6 +459,12 @@ func (vc *FuncVC) debugValue(name string, b *ssa.BasicBlock, st *State) *CVal {
 		db := d.Block()
 		if db == b || !db.Dominates(b) || isDeclaringRef(d) {
 			continue
+		}
+		// a variable of the same name declared in another scope (another case of a switch) is not this one
+		if o := d.Object(); o != nil && o.Parent() != nil && b.Instrs != nil {
+			if pos := blockPos(b); pos.IsValid() && !(o.Parent().Pos() <= pos && pos <= o.Parent().End()) {
+				continue
+			}
 		}
 		if best == nil || best.Block().Dominates(db) {
 			// later in dominator order, or later in the same block
@@ -747,7 +788,13 @@ func (vc *FuncVC) evalField(env *Env, x *EField) *CVal {
 			}
 		}
 	}
-	base := vc.eval(env, x.X)
+	benv := env
+	if _, ok := x.X.(*EIdent); ok {
+		c := *env
+		c.fieldHint = x.Name
+		benv = &c
+	}
+	base := vc.eval(benv, x.X)
 	if ref, st, ok := vc.structRefOf(base); ok {
 		si := vc.structOf(st)
 		sfx := ""
@@ -778,6 +825,9 @@ func (vc *FuncVC) evalField(env *Env, x *EField) *CVal {
 					}
 				}
 			}
+		}
+		if os.Getenv("GOVC_DEBUG") != "" {
+			fmt.Fprintf(os.Stderr, "no field: base %s typ %v sref %v block %v loop %v\n", base.T.S, base.Typ, base.SRef, env.block, env.loop != nil)
 		}
 		panic(fmt.Errorf("type %s has no field %s", st, x.Name))
 	}
@@ -1136,6 +1186,20 @@ func (vc *FuncVC) evalCall(env *Env, x *ECall) *CVal {
 			}
 			return vc.eval(&n, x.Args[len(x.Args)-1])
 		}
+		if len(x.Args) == 3 {
+			// the index counts the call sites of L in source order; find the executed record of that site
+			stat := vc.staticSites(id.Name)
+			if site >= len(stat) {
+				panic(fmt.Errorf("%s(%s, %d, …): the watch matches %d call site(s)", name, id.Name, site, len(stat)))
+			}
+			dyn := len(sts) // not executed on any path to here
+			for j, in := range vc.callInstr[id.Name] {
+				if in == stat[site] && j < len(sts) {
+					dyn = j
+				}
+			}
+			site = dyn
+		}
 		if site >= len(sts) {
 			// the site comes later in the function: no path to this point has executed it.
 			// In a formula to be proved its heap is left unconstrained (which can only make
@@ -1147,9 +1211,15 @@ func (vc *FuncVC) evalCall(env *Env, x *ECall) *CVal {
 				vc.neverState.havocAll = true
 			}
 			n.st = vc.neverState
+			n.noLocals = true
 		} else {
 			n.st = sts[site]
 			if bs := vc.callBlock[id.Name]; site < len(bs) {
+				if os.Getenv("GOVC_DEBUG") != "" {
+					for i, b := range bs {
+						fmt.Fprintf(os.Stderr, "site %s %d: block %d\n", id.Name, i, b.Index)
+					}
+				}
 				n.block = bs[site]
 				n.loop = nil
 			}
